@@ -18,7 +18,7 @@ m = {
     "setup_cmd": "cd /verif/harness && CARGO_NET_OFFLINE=true cargo build --release --offline",
     "hooks": {
         "guard": "verif-hooks",
-        "enable": "cargo feature of ggrs, switched on by the harness crate's path dependency (ggrs = { path = \"../../repo\", features = [\"verif-hooks\"] }); the repository's own build and test commands never enable it",
+        "enable": "cargo feature of ggrs, switched on by the harness crate's path dependency (ggrs = { path = \"/repo\", features = [\"verif-hooks\"] }); the repository's own build and test commands never enable it",
         "baseline_off_cmd": "cd /repo && cargo test --workspace --no-fail-fast --offline",
         "source_commits": [c.split()[0] for c in hook_commits],
         "add_only": True,
